@@ -445,7 +445,9 @@ def preemptible_script(sym, tier):
 
 HARNESSES.append(
     H(name="c09_preemptible_script", fn=preemptible_script, shape="S", budget=lambda tier: 900.0 if tier == "quick" else 3000.0,
-      cubes=lambda tier: [{"capacity_minus_2": c, "amount0_minus_1": a, "op1": o} for c in range(2) for a in range(2) for o in range(2)],
+      cubes=lambda tier: ([{"capacity_minus_2": c, "amount0_minus_1": a, "op1": o} for c in range(2) for a in range(2) for o in range(2)] if tier == "quick" else
+                          [{"capacity_minus_2": c, "amount0_minus_1": a, "op1": o, "preempt0": p, "op2": o2, "op3": o3}
+                           for c in range(2) for a in range(2) for o in range(2) for p in range(2) for o2 in range(2) for o3 in range(2)]),
       require=lambda tier: ["preemption", "someone_waits"], classify=sync_classify,
       functions=["PreemptibleResource.acquire/_try_preempt/_grant_immediate/_do_release/_wake_waiters", "PreemptibleGrant.release/_do_preempt"],
       bounds=lambda tier: {"capacity": [2, 3], "ops": 4 if tier == "quick" else 5, "amounts": [1, 2], "priorities": "symbolic 0..2", "preempt flag": "symbolic"},
